@@ -212,7 +212,7 @@ Qed.
 Lemma g_split_shift (s : vsock) : g_split cci s = true -> g_split cci (sh s) = true.
 Proof.
   unfold g_split. rewrite pj_tx. destruct (Z.of_nat (length (ring (v_tx s))) =? 0); [reflexivity|].
-  cbv zeta. rewrite split_s1_shift, pj_segs, pj_t_retransmit, pj_now, pj_opts, pop_expired_shift.
+  cbv zeta. rewrite split_s1_shift, pj_segs, pj_t_retransmit, pj_now, pj_opts, pj_state, is_local_fin_shift, pop_expired_shift.
   cbn [snd]. destruct (snd (pop_expired_mtu_probe _ _ _)) as [rw psz| |]; cbn [shift_pe]; try reflexivity.
   rewrite pj_last_sent_seq_nr. apply cmp_ok_shift.
 Qed.
